@@ -47,7 +47,7 @@ def gen_cases(rng, tier, escalate=False):
     for _ in range((10 if q else 60) * mult):
         cases.append(ids_common.sequence_case(rng, tier, ["C06"]))
     for _ in range((2 if q else 16) * mult):
-        cases.append(ids_common.sequence_case(rng, tier, ["C06"], long=True))
+        cases.append(ids_common.sequence_case(rng, tier, ["C06"], long=True, probe_max=3))
     for _ in range((8 if q else 80) * mult):
         cases.append(ids_common.generated_case(rng, tier, ["C06"], peers=1, streams=rng.random() < 0.4, p_extra=0.6))
     for _ in range((12 if q else 120) * mult):
